@@ -227,7 +227,7 @@ def c10(tier, seed):
     meta = json.load(open(mt))
     v = events_with_cases(res, "C10", "Equil.tla", "Equil.cfg", tr, cs, "equil", "equil-replay", nshards=12)
     lines = read_ndjson(tr)
-    smp = [{k: e[k] for k in ("run", "enable", "iters", "cones", "zero_row", "zero_col")} for e in lines[:3] if "cones" in e]
+    smp = [{k: e.get(k) for k in ("run", "enable", "iters", "cones", "zero_row", "zero_col")} for e in lines[:3] if "cones" in e]
     res.coverage = {"states": max(1, v["states"]), "transitions": max(1, v["transitions"]),
                     "traces_validated_against_impl": v["events"], "evaluations": v["events"],
                     "distinct_nontrivial": meta["with_nonscalar_cone"],
@@ -418,7 +418,7 @@ def c05(tier, seed):
     for e in lines:
         kinds[e.get("kind")] = kinds.get(e.get("kind"), 0) + 1
     if meta["compared"] < 0.8 * max(1, meta["pairs"]):
-        raise ToolError("vacuity guard: too many pairs without a verdict on both sides")
+        if not res.violations: raise ToolError("vacuity guard: too many pairs without a verdict on both sides")   # (a violation already found is reported as such)
     res.coverage = {"states": mc["states"] + v["states"], "transitions": mc["transitions"] + v["transitions"],
                     "traces_validated_against_impl": v["events"], "evaluations": v["events"], "distinct_nontrivial": meta["compared"],
                     "rule": "one evaluation = one pair (base run, equivalent run) of the real solver: identical call, rows permuted inside cones, cones "
@@ -476,7 +476,7 @@ def c11(tier, seed):
             payload = {"kind": "kkt-replay", "prop": "C11", "event": e, "count": len(evs), "spec": "Trace_Refine.tla", "cfg": "Trace_Refine.cfg", "case": cases2.get(e.get("id"))}
             res.violation(("kkt-" + cls).replace(":", "_"), payload, f"{len(evs)} KKT solves rejected ({cls}): {json.dumps({k: e.get(k) for k in ('ok', 'end_ok', 'converged', 'maxiter', 'thr_ok')})}", key=cls)
     if not res.violations and (meta2["refinement_steps"] < 100 or meta2["converged"] == 0 or meta2["stalled"] == 0 or meta2["failed"] == 0 or meta2["with_aux"] == 0):
-        raise ToolError(f"vacuity guard: the KKT-solve corpus does not exercise every exit of the refinement loop: {meta2}")
+        if not res.violations: raise ToolError(f"vacuity guard: the KKT-solve corpus does not exercise every exit of the refinement loop: {meta2}")   # (a violation already found is reported as such)
     nstate = [e for e in lines if e.get("ev") == "KKTState"]
     res.coverage = {"refine": {"mc_states": sum(m["states"] for m in mcs), "solves": v2["events"], **meta2}, "states": max(1, v["states"]), "transitions": max(1, v["transitions"]), "traces_validated_against_impl": v["events"],
                     "evaluations": v["events"], "distinct_nontrivial": len({json.dumps([e.get("colptr"), e.get("rowval"), e.get("triu")]) for e in lines if "colptr" in e}),
@@ -489,7 +489,7 @@ def c11(tier, seed):
                             "(max_iter 0..10, tolerances 1e-10..1e-30, stop ratio 1..5, static regulariser 1e-8..1e-2 or off), each loop decision re-derived by "
                             "Trace_Refine.tla and the final residual recomputed from the unregularised KKT view; "
                             "distinct = distinct (structure, triangle) pairs",
-                    "meta": meta, "kkt_states": len(nstate), "samples": [{k: e[k] for k in ("ev", "triu", "n", "m", "p", "cones")} for e in sample(lines, 3) if "cones" in e],
+                    "meta": meta, "kkt_states": len(nstate), "samples": [{k: e.get(k) for k in ("ev", "triu", "n", "m", "p", "cones")} for e in sample(lines, 3) if "cones" in e],
                     "trusted_base": ["TLC", "Csc.tla Canonical", "observer Schur complement"]}
     return res
 
@@ -529,7 +529,7 @@ def c15(tier, seed):
                 br[k] = br.get(k, 0) + 1
     for need in ("no_limit", "single_root_b_neg", "single_root_b_nonneg", "two_roots"):
         if br.get(need, 0) == 0:
-            raise ToolError(f"vacuity guard: SOC branch {need} never exercised")
+            if not res.violations: raise ToolError(f"vacuity guard: SOC branch {need} never exercised")   # (a violation already found is reported as such)
     res.coverage = {"states": mc["states"] + v["states"], "transitions": mc["transitions"] + v["transitions"],
                     "traces_validated_against_impl": v["events"], "evaluations": v["events"],
                     "distinct_nontrivial": len({json.dumps([e.get("s"), e.get("ds"), e.get("z"), e.get("dz"), e.get("amax")]) for e in lines if e.get("ev") == "Step"}) + meta["backtrack"] + meta["composite"],
@@ -537,7 +537,7 @@ def c15(tier, seed):
                             "(quick: 15% sample) -- safe/bounded/tight decided by TLC in integer arithmetic; protocol: random exp/power/genpower line searches with the "
                             "probe log checked against the backtracking protocol and observer membership; composite: random mixed cone lists incl. PSD; shift: symmetric "
                             "initialisation of random vectors up to 1e21 in magnitude; distinct = distinct exact (point, direction, alpha_max) tuples + protocol/composite events",
-                    "soc_branch_coverage": br, "meta": meta, "samples": sample([e for e in lines if e.get("ev") == "Step"], 2) + [{k: e[k] for k in ("ev", "kind", "alpha_z", "alpha_s")} for e in lines if e.get("ev") == "Backtrack"][:1],
+                    "soc_branch_coverage": br, "meta": meta, "samples": sample([e for e in lines if e.get("ev") == "Step"], 2) + [{k: e.get(k) for k in ("ev", "kind", "alpha_z", "alpha_s")} for e in lines if e.get("ev") == "Backtrack"][:1],
                     "mc_conestep_states": mc["states"], "exhaustive": bool(meta.get("exhaustive_exact")),
                     "trusted_base": ["TLC", "observer membership margins (nonsymmetric, PSD)"]}
     res.assumptions = ["PSD cones of dimension > 2 and tightness for exp/power cones beyond one backtracking factor are covered only through the composite-step events"]
@@ -557,7 +557,7 @@ def c18(tier, seed):
         k = e["ev"] + (":compact" if e.get("compact") else ":standard" if "compact" in e else "")
         kinds[k] = kinds.get(k, 0) + 1
     if meta["decomposed_events"] < 50:
-        raise ToolError("vacuity guard: too few decomposed problems in the corpus")
+        if not res.violations: raise ToolError("vacuity guard: too few decomposed problems in the corpus")   # (a violation already found is reported as such)
     res.coverage = {"states": max(1, v["states"]), "transitions": max(1, v["transitions"]), "traces_validated_against_impl": v["events"],
                     "evaluations": v["events"], "distinct_nontrivial": meta["decomposed_events"],
                     "rule": "sparse SDPs (1-2 PSD cones of dimension 4..7 with banded/arrow/block/random/chordal aggregate patterns, entries present only through b, "
